@@ -133,9 +133,21 @@ def typed(v):
     return re.escape("<Str>" + x)
 
 
-def probe_outcome(fn, args):
-    """specification of the probe library: ('value', v) | ('novalue',) | ('raised', msg)"""
+SYMS = {1: ["echo", "first", "nothing", "fail"], 2: ["echo", "first", "nothing", "only2"]}
+
+
+def probe_outcome(fn, args, which=1):
+    """specification of the probe libraries (harness/ffiprobe = 1, harness/ffiprobe2 = 2):
+    ('value', v) | ('novalue',) | ('raised', msg)"""
     r = render(args)
+    if which == 2:
+        if fn == "echo":
+            return ("value", ("str", "lib2:" + r))
+        if fn == "first":
+            return ("value", args[-1]) if args else ("novalue",)
+        if fn == "nothing":
+            return ("novalue",)
+        return ("value", ("int", len(args)))          # only2
     if fn == "echo":
         return ("value", ("str", r))
     if fn == "first":
@@ -143,6 +155,69 @@ def probe_outcome(fn, args):
     if fn == "nothing":
         return ("novalue",)
     return ("raised", "probe-fail:" + r)
+
+
+def gen_history(rng, so, so2, idx):
+    """2-4 call_lib instructions in ONE program, mixing the two probe libraries, a missing library, symbols that exist in
+    one library only or nowhere; the run stops at the first failing call.  idx < 324: every ordered pair of
+    (library, symbol) x (library, symbol); then random histories of length 3-4 biased towards repeating a symbol name
+    with a different library operand."""
+    missing = os.path.join(os.path.dirname(so), "no-such-dir", "libffiprobe.so")
+    libs = [so, so2, missing]
+    syms = ["echo", "first", "nothing", "fail", "only2", "no_such_symbol"]
+    combos = [(l, f) for l in libs for f in syms]
+    if idx < len(combos) ** 2:
+        seq = [combos[idx // len(combos)], combos[idx % len(combos)]]
+    else:
+        seq = [rng.choice(combos)]
+        for _ in range(rng.choice([2, 3])):
+            if rng.random() < 0.7:
+                seq.append((rng.choice(libs), seq[-1][1]))      # same symbol name, library drawn again
+            else:
+                seq.append(rng.choice(combos))
+        # favour histories whose first call succeeds
+        if rng.random() < 0.8:
+            seq[0] = (rng.choice([so, so2]), rng.choice(["echo", "first", "nothing"]))
+    kinds = ["int", "bigint", "float", "byte", "bool", "str"]
+    prog = [("push", ("str", "before")), ("printn",), ("void",)]
+    exp_lines = [[("str", "before")]]
+    stack, calls, o, failed = [], [], None, False
+    for (lib, fn) in seq:
+        for _ in range(rng.choice([0, 1, 1, 2, 3])):
+            v = mkval(rng.choice(kinds), rng)
+            prog.append(("push", v))
+            stack = stack + [v]
+        prog.append(("call", lib, fn))
+        passed = list(stack)
+        which = 1 if lib == so else 2 if lib == so2 else 0
+        if which == 0:
+            o, failed = ("nolib", lib, passed), True
+            break
+        if fn not in SYMS[which]:
+            o, failed = ("nosym", fn, passed), True
+            break
+        o = probe_outcome(fn, passed, which)
+        calls.append((lib, fn, passed, o))
+        if o[0] == "raised":
+            failed = True
+            break
+        stack = [o[1]] if o[0] == "value" else []
+        if rng.random() < 0.7:
+            prog += [("printn",), ("void",)]
+            exp_lines.append(list(stack))
+            stack = []
+    call_ip = len(prog) - 1 if failed else None
+    if failed:
+        # what follows a failing call must never run
+        rest = seq[len([i for i in prog if i[0] == "call"]):]
+        for (lib, fn) in rest:
+            prog.append(("call", lib, fn))
+    prog += [("printn",), ("void",), ("push", ("str", "after")), ("printn",), ("void",), ("ret",)]
+    if not failed:
+        exp_lines += [list(stack), [("str", "after")]]
+    return {"prog": prog, "calls": calls, "outcome": o, "failed": failed, "exp_lines": exp_lines, "variant": "H%d" % len(seq),
+            "form": "history", "lib": None, "fn": None, "last_call_ip": call_ip, "nargs": len(seq),
+            "history": [("L1" if l == so else "L2" if l == so2 else "missing") + ":" + f for l, f in seq]}
 
 
 def gen_case(rng, so, idx):
@@ -183,7 +258,7 @@ def gen_case(rng, so, idx):
         if form == "nosym":
             return ("nosym", fn, passed)
         o = probe_outcome(fn, passed)
-        calls.append((fn, passed, o))
+        calls.append((lib, fn, passed, o))
         stack = [o[1]] if o[0] == "value" else []
         return o
 
@@ -218,7 +293,7 @@ def text_of(prog):
     return "\n".join(out) + "\n"
 
 
-def coq_of(case, so):
+def coq_of(case, so, so2):
     ins = []
     for i in case["prog"]:
         if i[0] == "push":
@@ -228,10 +303,11 @@ def coq_of(case, so):
         else:
             ins.append({"printn": "PrintN", "void": "Void", "ret": "RetMod"}[i[0]])
     tbl = []
-    for fn, passed, o in case["calls"]:
+    for lib, fn, passed, o in case["calls"]:
         oc = {"value": lambda: "Value (%s)" % coq_val(o[1]), "novalue": lambda: "NoValue", "raised": lambda: "Raised %s" % coq_str(o[1])}[o[0]]()
-        tbl.append("(%s, [%s], %s)" % (coq_str(fn), "; ".join(coq_val(v) for v in passed), oc))
-    world = "table_ffi [%s] [%s] [%s]" % (coq_str(so), "; ".join(coq_str(f) for f in FUNCS), "; ".join(tbl))
+        tbl.append("(%s, %s, [%s], %s)" % (coq_str(lib), coq_str(fn), "; ".join(coq_val(v) for v in passed), oc))
+    libs = "; ".join("(%s, [%s])" % (coq_str(l), "; ".join(coq_str(f) for f in SYMS[w])) for l, w in ((so, 1), (so2, 2)))
+    world = "table_ffi [%s] [%s]" % (libs, "; ".join(tbl))
     return "summary_enc (run (%s) [%s])" % (world, "; ".join(ins))
 
 
@@ -259,9 +335,13 @@ def run(ctx):
     so = os.path.join(hdir, "libffiprobe.so")
     if not os.path.exists(so):
         raise core.BuildError("probe library not found: " + so)
+    so2 = os.path.join(core.build_harness("ffiprobe2"), "libffiprobe2.so")
+    if not os.path.exists(so2):
+        raise core.BuildError("second probe library not found: " + so2)
     base = ctx.mktemp()
-    ncases = 300 if ctx.quick() else 5000
-    cases = [gen_case(ctx.rng, so, i) for i in range(ncases)]
+    ncases = 220 if ctx.quick() else 4000
+    nhist = 324 + (120 if ctx.quick() else 3000)
+    cases = [gen_case(ctx.rng, so, i) for i in range(ncases)] + [gen_history(ctx.rng, so, so2, i) for i in range(nhist)]
 
     def one(case):
         d = tempfile.mkdtemp(prefix="f-", dir=base)
@@ -285,7 +365,7 @@ def run(ctx):
         return t, r, log, trace
 
     results = programs.pmap(one, cases)
-    terms = [coq_of(c, so) for c in cases]
+    terms = [coq_of(c, so, so2) for c in cases]
     shards = [terms[i:i + 250] for i in range(0, len(terms), 250)]
     preds = [x for sh in programs.pmap(lambda a: model_eval(a[0], a[1]), list(enumerate(shards))) for x in sh]
 
@@ -300,9 +380,9 @@ def run(ctx):
             if i[0] == "push":
                 dist["kinds"][i[1][0]] = dist["kinds"].get(i[1][0], 0) + 1
         text = text_of(case["prog"])
-        replay = {"bytecode_text": text, "variant": case["variant"], "form": case["form"],
+        replay = {"bytecode_text": text, "variant": case["variant"], "form": case["form"], "history": case.get("history"),
                   "how": "save as x.transpiled.mmm; mscript transpile x.transpiled.mmm; MSCRIPT_VERIF_TYPED_PRINT=1 FFIPROBE_LOG=log mscript execute x.mmm",
-                  "probe_library": so}
+                  "probe_libraries": [so, so2]}
         if t[0] != 0 or r is None:
             spec_fail += 1
             ctx.report("ffi-program-not-transpiled", "hand-written bytecode was rejected by transpile: %s" % (t[1] + t[2])[-300:], dict(replay, transpile=t))
@@ -316,8 +396,12 @@ def run(ctx):
                 steps.append((int(p[1]), int(p[4])))
         # ------------- the property's specification
         bad = []
-        exp_log = "".join("%s %s\n" % (fn, render(passed)) for fn, passed, _ in case["calls"])
-        if log != exp_log:
+        exp_log = "".join("%s%s %s\n" % ("2:" if lib == so2 else "", fn, render(passed)) for lib, fn, passed, _ in case["calls"])
+        heads = lambda t: [l.split(" ", 1)[0] for l in t.splitlines()]
+        if log != exp_log and heads(log) != heads(exp_log):
+            bad.append(("ffi-wrong-function-called", "the functions entered are not the named functions of the named libraries: entered %r, named %r%s" % (
+                heads(log), heads(exp_log), "; history " + " -> ".join(case["history"]) if case.get("history") else "")))
+        elif log != exp_log:
             bad.append(("ffi-arguments-altered", "the foreign function did not receive the operand stack in order and unchanged: got %r expected %r" % (log[-300:], exp_log[-300:])))
         exp_out_re = "".join(", ".join(typed(v) for v in l) + "\n" for l in case["exp_lines"])
         if not re.fullmatch(exp_out_re, out, re.S):
@@ -328,7 +412,8 @@ def run(ctx):
             want = {"raised": lambda: "FFI: " + o[1], "nolib": lambda: "Could not open FFI Library (%s)" % o[1],
                     "nosym": lambda: "Could not find symbol (%s)" % o[1]}[o[0]]()
             if rc == 0:
-                bad.append(("ffi-error-not-raised", "the program finished normally although the foreign call failed (%s)" % o[0]))
+                bad.append(("ffi-error-not-raised", "the program finished normally although the foreign call failed (%s%s)" % (
+                    o[0], "; history " + " -> ".join(case["history"]) if case.get("history") else "")))
             elif want not in err:
                 bad.append(("ffi-error-message-lost", "run-time error does not carry %r: %r" % (want[:200], err[-400:])))
             if steps and steps[-1][0] != case["last_call_ip"]:
@@ -350,7 +435,7 @@ def run(ctx):
             diffs.append("stdout impl=%r model=%r" % (out[-200:], m_out_re[-200:]))
         if steps != pred["steps"]:
             diffs.append("executed (ip, operand length) impl=%r model=%r" % (steps[-6:], pred["steps"][-6:]))
-        m_log = "".join("%s %s\n" % (c[1], render_c(c[2])) for c in pred["calls"])
+        m_log = "".join("%s%s %s\n" % ("2:" if c[0] == so2 else "", c[1], render_c(c[2])) for c in pred["calls"])
         if m_log != log:
             diffs.append("foreign calls impl=%r model=%r" % (log[-200:], m_log[-200:]))
         if pred["status"] in (1, 2, 3) and pred["msg"] not in err:
@@ -362,7 +447,8 @@ def run(ctx):
                            dict(replay, model=pred, correspondence="T7 ffi (Ffi/Model.v vs call_lib / Function::run / process_library_jump_request)"),
                            found_input=False)
         key = text
-        if key not in seen and case["nargs"] >= 2 and len(set(v[0] for v in [i[1] for i in case["prog"] if i[0] == "push"])) >= 3:
+        multi_lib = len(set(i[1] for i in case["prog"] if i[0] == "call")) >= 2
+        if key not in seen and (multi_lib or (case["nargs"] >= 2 and len(set(v[0] for v in [i[1] for i in case["prog"] if i[0] == "push"])) >= 3)):
             nontrivial += 1
         seen.add(key)
         if idx in (3, 20, 77):
@@ -370,11 +456,15 @@ def run(ctx):
 
     ctx.cov["evaluations"] = len(cases)
     ctx.cov["distinct_nontrivial"] = nontrivial
-    ctx.cov["exhaustive"] = False
-    ctx.cov["rule"] = ("a case = one hand-written text-bytecode program (transpile, execute) making 1-2 foreign calls with 0-6 (+ carried) arguments over "
-                       "int/bigint/float/byte/bool/str boundary values; forms echo/first/nothing/fail/missing library/missing symbol; variants A (clean stack), "
-                       "B (a value already on the stack is passed too), C (result of the first call carried into a second); non-trivial = distinct program passing "
-                       ">=2 arguments of >=3 different kinds overall")
+    ctx.cov["exhaustive"] = True
+    ctx.cov["exhaustive_part"] = "all 324 ordered pairs of (library in {probe 1, probe 2, missing}, symbol in {echo, first, nothing, fail, only2, no_such_symbol}) as two-call histories"
+    ctx.cov["rule"] = ("a case = one hand-written text-bytecode program (transpile, execute). Stream 1: one or two foreign calls into probe library 1 with 0-6 "
+                       "(+ carried) arguments over int/bigint/float/byte/bool/str boundary values; forms echo/first/nothing/fail/missing library/missing "
+                       "symbol; variants A (clean stack), B (a value already on the stack is passed too), C (result carried into a second call). Stream 2 "
+                       "(histories): 2-4 call_lib instructions in one program over {probe library 1, probe library 2 (same symbol names, different "
+                       "behaviour, lacks `fail`, adds `only2`), a missing library} x 6 symbol names - every ordered pair exhaustively (324), longer ones "
+                       "random, biased to repeat a symbol name with another library operand. non-trivial = distinct program with >=2 pushes of >=3 kinds "
+                       "overall or a history whose calls name >=2 different libraries")
     ctx.cov["distribution"] = dist
     ctx.cov["model_impl_disagreements"] = dis
     ctx.cov["spec_failures"] = spec_fail
